@@ -549,6 +549,38 @@ func init() {
 		sl := a[0].(iface).v.([]value)
 		less := a[1]
 		r := fr.i.run
+		if _, allInts := scalarIntKind(sl); allInts && len(sl) > 1 && len(sl) <= 12 {
+			anySym := false
+			for _, e := range sl {
+				if isSym(e) {
+					anySym = true
+				}
+			}
+			if anySym {
+				// oblivious compare-exchange network (bubble network): the user's less is evaluated
+				// symbolically and the exchange is an ite, so sorting symbolic keys does not fork
+				oblivious := true
+				for i := 0; i < len(sl) && oblivious; i++ {
+					for j := 0; j+1 < len(sl)-i; j++ {
+						c := call(fr.i, fr, 0, less, []value{j + 1, j})
+						switch cb := c.(type) {
+						case bool:
+							if cb {
+								sl[j], sl[j+1] = sl[j+1], sl[j]
+							}
+						case symBool:
+							x, y := sl[j], sl[j+1]
+							sl[j], sl[j+1] = r.itev(cb, y, x), r.itev(cb, x, y)
+						default:
+							oblivious = false
+						}
+					}
+				}
+				if oblivious {
+					return nil
+				}
+			}
+		}
 		// insertion sort: stable, deterministic, O(n^2) calls of less
 		for i := 1; i < len(sl); i++ {
 			for j := i; j > 0; j-- {
